@@ -4,6 +4,7 @@ import (
 	"fmt"
 	"go/constant"
 	"go/token"
+	"os"
 	"sort"
 	"strings"
 
@@ -89,6 +90,7 @@ type LeafOptions struct {
 	Effects  bool
 	cache    map[*ssa.Function][]*Leaf
 	stack    map[*ssa.Function]bool
+	site     *int // call sites expanded so far (gives inlined locals distinct identifiers)
 }
 
 // Leaves enumerates the entry→return paths of a loop-free function. With
@@ -100,8 +102,25 @@ func Leaves(fn *ssa.Function, opt LeafOptions) ([]*Leaf, error) {
 	if opt.cache == nil {
 		opt.cache = map[*ssa.Function][]*Leaf{}
 		opt.stack = map[*ssa.Function]bool{}
+		opt.site = new(int)
 	}
 	return leaves(fn, opt)
+}
+
+var debugInline = os.Getenv("CVSSLINT_DEBUG") != ""
+
+// loopError: the function has a cycle in its control-flow graph.
+type loopError struct{ msg string }
+
+func (e *loopError) Error() string { return e.msg }
+
+// callCtx is the calling context of a context-sensitive enumeration: the
+// callee's parameters are bound to the argument terms from the start (so that
+// len(list(...)) and list(...)[i] fold) and the identifiers of its locals are
+// shifted by off.
+type callCtx struct {
+	args []*Term
+	off  int
 }
 
 func leaves(fn *ssa.Function, opt LeafOptions) ([]*Leaf, error) {
@@ -119,17 +138,43 @@ func leaves(fn *ssa.Function, opt LeafOptions) ([]*Leaf, error) {
 	if opt.MaxPaths == 0 {
 		opt.MaxPaths = 4096
 	}
+	out, err := enumerate(fn, opt, nil)
+	if _, isLoop := err.(*loopError); isLoop && opt.Inline != nil {
+		// a loop whose trip count is a constant of the function itself (a range over a literal table) unrolls
+		out2, err2 := enumerate(fn, opt, &callCtx{})
+		if err2 == nil {
+			out, err = out2, nil
+		} else {
+			err = &loopError{fmt.Sprintf("%v (unrolling: %v)", err, err2)}
+		}
+	}
+	if err != nil {
+		return nil, err
+	}
+	opt.cache[fn] = out
+	return out, nil
+}
+
+// enumerate walks the paths of fn. Without a calling context the function
+// must be loop-free. With one, blocks may be revisited: a loop whose trip
+// condition folds to a constant under the bound arguments is unrolled (a loop
+// whose condition stays symbolic runs into the per-block visit cap, which is an
+// error, never a truncation); φ-nodes are then bound to the term of the incoming
+// value at the time the edge is taken.
+func enumerate(fn *ssa.Function, opt LeafOptions, cx *callCtx) ([]*Leaf, error) {
 	var out []*Leaf
-	onPath := map[*ssa.BasicBlock]bool{}
+	onPath := map[*ssa.BasicBlock]int{}
+	steps := 0
 	type state struct {
 		phi    map[*ssa.Phi]ssa.Value
 		guards []*Term
 		eff    []Effect
 		blocks []int
 		bind   map[ssa.Value]*Term
+		mem    localMem
 	}
+	priv := map[ssa.Value]bool{}
 	var err error
-	site := 0
 	addGuard := func(gs []*Term, g *Term) ([]*Term, bool) {
 		if g.Op == OConst && g.C != nil && g.C.Kind() == constant.Bool {
 			return gs, constant.BoolVal(g.C)
@@ -151,19 +196,54 @@ func leaves(fn *ssa.Function, opt LeafOptions) ([]*Leaf, error) {
 		if err != nil {
 			return
 		}
-		if onPath[blk] {
-			err = fmt.Errorf("%s: loop through block %d: not a loop-free function", fn.String(), blk.Index)
+		if onPath[blk] > 0 && cx == nil {
+			err = &loopError{fmt.Sprintf("%s: loop through block %d: not a loop-free function", fn.String(), blk.Index)}
+			return
+		}
+		steps++
+		if onPath[blk] > 40 || steps > 200000 {
+			err = fmt.Errorf("%s: loop through block %d does not unroll within the budget", fn.String(), blk.Index)
 			return
 		}
 		if len(out) > opt.MaxPaths {
 			err = fmt.Errorf("%s: more than %d paths", fn.String(), opt.MaxPaths)
 			return
 		}
-		onPath[blk] = true
-		defer delete(onPath, blk)
+		onPath[blk]++
+		defer func() { onPath[blk]-- }()
 		// resolve φ-nodes by the incoming edge
 		phi := st.phi
-		if pred != nil {
+		if pred != nil && cx != nil {
+			pi := -1
+			for i, p := range blk.Preds {
+				if p == pred {
+					pi = i
+				}
+			}
+			var nb map[ssa.Value]*Term
+			var ob *Builder
+			for _, in := range blk.Instrs {
+				p, ok := in.(*ssa.Phi)
+				if !ok {
+					break
+				}
+				if nb == nil {
+					nb = make(map[ssa.Value]*Term, len(st.bind)+2)
+					for k, v := range st.bind {
+						nb[k] = v
+					}
+					ob = NewBuilder(fn)
+					ob.Forward = opt.Forward
+					ob.InlineOK = opt.InlineOK
+					ob.Bind = st.bind // parallel copy: every incoming value is read in the predecessor's state
+					ob.IDOff = cx.off
+				}
+				nb[p] = ob.Term(p.Edges[pi])
+			}
+			if nb != nil {
+				st.bind = nb
+			}
+		} else if pred != nil {
 			pi := -1
 			for i, p := range blk.Preds {
 				if p == pred {
@@ -201,35 +281,87 @@ func leaves(fn *ssa.Function, opt LeafOptions) ([]*Leaf, error) {
 			b.Forward = opt.Forward
 			b.InlineOK = opt.InlineOK
 			b.Bind = bind
+			if cx != nil {
+				b.IDOff = cx.off
+			}
 			return b
 		}
-		var process func(i int, guards []*Term, eff []Effect, bind map[ssa.Value]*Term)
-		process = func(i int, guards []*Term, eff []Effect, bind map[ssa.Value]*Term) {
+		var process func(i int, guards []*Term, eff []Effect, bind map[ssa.Value]*Term, mem localMem)
+		process = func(i int, guards []*Term, eff []Effect, bind map[ssa.Value]*Term, mem localMem) {
 			if err != nil {
 				return
 			}
 			b := mk(bind)
+			ownBind := false
+			setBind := func(x ssa.Value, v *Term) {
+				if !ownBind {
+					nb := make(map[ssa.Value]*Term, len(bind)+4)
+					for k, v := range bind {
+						nb[k] = v
+					}
+					bind, ownBind = nb, true
+					b.Bind = bind
+				}
+				bind[x] = v
+			}
 			for ; i < len(blk.Instrs)-1; i++ {
 				in := blk.Instrs[i]
+				if opt.Forward {
+					// path-sensitive content of private local memory (see mem.go)
+					switch x := in.(type) {
+					case *ssa.Alloc:
+						if len(mem) > 0 {
+							mem = mem.fresh(b.Addr(x))
+						}
+					case *ssa.Store:
+						if al := baseAlloc(x.Addr); al != nil && private(al, priv) {
+							mem = mem.store(b.Addr(x.Addr), b.Term(x.Val))
+						}
+					case *ssa.Slice:
+						// a slice of a private array whose cells were all stored earlier in this block (a slice literal) is its element list
+						if lst := sliceLiteral(x, b, mem, priv); lst != nil {
+							setBind(x, lst)
+						}
+					case *ssa.UnOp:
+						if x.Op == token.MUL && len(mem) > 0 {
+							if al := baseAlloc(x.X); al != nil && private(al, priv) {
+								if v := mem.load(b.Addr(x.X), x.Type()); v != nil {
+									setBind(x, v)
+								}
+							}
+						}
+					}
+				}
 				if call, ok := in.(*ssa.Call); ok && opt.Inline != nil {
 					if callee := call.Call.StaticCallee(); callee != nil && len(callee.Blocks) > 0 && opt.Inline(callee) {
-						cl, cerr := leaves(callee, opt)
-						if cerr != nil {
-							// a callee that cannot be expanded (it loops, recurses, ...) stays an opaque call
-							goto opaque
-						}
 						var args []*Term
 						for _, a := range call.Call.Args {
 							args = append(args, b.Term(a))
 						}
-						site++
-						off := site * 100000
+						*opt.site++
+						off := *opt.site * 100000
+						tr := func(t *Term) *Term { return Subst(renameLocals(t, off), args) }
+						cl, cerr := leaves(callee, opt)
+						if _, isLoop := cerr.(*loopError); isLoop && !opt.stack[callee] {
+							// a loop whose trip count is fixed by this call's arguments: enumerate the callee in context
+							opt.stack[callee] = true
+							cl, cerr = enumerate(callee, opt, &callCtx{args: args, off: off})
+							delete(opt.stack, callee)
+							tr = func(t *Term) *Term { return t }
+						}
+						if cerr != nil {
+							// a callee that cannot be expanded (it loops, recurses, ...) stays an opaque call
+							if debugInline {
+								fmt.Fprintf(os.Stderr, "inline of %s in %s failed: %v\n", callee, fn, cerr)
+							}
+							goto opaque
+						}
 						for _, L := range cl {
 							ng := guards
 							ok := true
 							for _, g := range L.Guards {
 								var keep bool
-								ng, keep = addGuard(ng, Subst(renameLocals(g, off), args))
+								ng, keep = addGuard(ng, tr(g))
 								if !keep {
 									ok = false
 									break
@@ -245,13 +377,13 @@ func leaves(fn *ssa.Function, opt LeafOptions) ([]*Leaf, error) {
 									ce := ef
 									ce.NG = len(ng)
 									if ce.Addr != nil {
-										ce.Addr = Subst(renameLocals(ce.Addr, off), args)
+										ce.Addr = tr(ce.Addr)
 									}
 									if ce.Key != nil {
-										ce.Key = Subst(renameLocals(ce.Key, off), args)
+										ce.Key = tr(ce.Key)
 									}
 									if ce.Val != nil {
-										ce.Val = Subst(renameLocals(ce.Val, off), args)
+										ce.Val = tr(ce.Val)
 									}
 									ne = append(ne, ce)
 								}
@@ -262,14 +394,14 @@ func leaves(fn *ssa.Function, opt LeafOptions) ([]*Leaf, error) {
 							}
 							var rets []*Term
 							for _, r := range L.Ret {
-								rets = append(rets, Subst(renameLocals(r, off), args))
+								rets = append(rets, tr(r))
 							}
 							if len(rets) == 1 {
 								nb[call] = rets[0]
 							} else {
 								nb[call] = &Term{Op: "tuple", Args: rets}
 							}
-							process(i+1, ng, ne, nb)
+							process(i+1, ng, ne, nb, mem)
 						}
 						return
 					}
@@ -288,7 +420,11 @@ func leaves(fn *ssa.Function, opt LeafOptions) ([]*Leaf, error) {
 				case *ssa.MapUpdate:
 					eff = append(append([]Effect{}, eff...), Effect{Kind: "map-update", Addr: b.Term(x.Map), Key: b.Term(x.Key), Val: b.Term(x.Value), Pos: x.Pos(), NG: len(guards)})
 				case *ssa.Call:
-					eff = append(append([]Effect{}, eff...), Effect{Kind: "call", Val: b.Term(x), Pos: x.Pos(), NG: len(guards)})
+					ct := b.Term(x)
+					if ct.Op == OConst {
+						continue // len of a reconstructed list: folded, no effect
+					}
+					eff = append(append([]Effect{}, eff...), Effect{Kind: "call", Val: ct, Pos: x.Pos(), NG: len(guards)})
 				}
 			}
 			last := blk.Instrs[len(blk.Instrs)-1]
@@ -300,9 +436,12 @@ func leaves(fn *ssa.Function, opt LeafOptions) ([]*Leaf, error) {
 				}
 				out = append(out, lf)
 			case *ssa.Jump:
-				walk(blk.Succs[0], blk, state{phi, guards, eff, blocks, bind})
+				walk(blk.Succs[0], blk, state{phi, guards, eff, blocks, bind, mem})
 			case *ssa.If:
 				c := b.Term(t.Cond)
+				if debugInline && onPath[blk] > 1 {
+					fmt.Fprintf(os.Stderr, "%s block %d visit %d: cond %s\n", fn.Name(), blk.Index, onPath[blk], c.Pretty())
+				}
 				for i, succ := range blk.Succs {
 					g := c
 					if i == 1 {
@@ -312,7 +451,7 @@ func leaves(fn *ssa.Function, opt LeafOptions) ([]*Leaf, error) {
 					if !keep {
 						continue
 					}
-					walk(succ, blk, state{phi, gs, eff, blocks, bind})
+					walk(succ, blk, state{phi, gs, eff, blocks, bind, mem})
 				}
 			case *ssa.Panic:
 				err = fmt.Errorf("%s: explicit panic at block %d", fn.String(), blk.Index)
@@ -320,14 +459,28 @@ func leaves(fn *ssa.Function, opt LeafOptions) ([]*Leaf, error) {
 				err = fmt.Errorf("%s: unexpected terminator %T", fn.String(), last)
 			}
 		}
-		process(0, st.guards, st.eff, st.bind)
+		process(0, st.guards, st.eff, st.bind, st.mem)
 	}
-	walk(fn.Blocks[0], nil, state{phi: map[*ssa.Phi]ssa.Value{}, bind: map[ssa.Value]*Term{}})
+	bind0 := map[ssa.Value]*Term{}
+	if cx != nil {
+		for i, p := range fn.Params {
+			if i < len(cx.args) && cx.args[i] != nil {
+				bind0[p] = cx.args[i]
+			}
+		}
+	}
+	walk(fn.Blocks[0], nil, state{phi: map[*ssa.Phi]ssa.Value{}, bind: bind0, mem: localMem{}})
 	if err != nil {
 		return nil, err
 	}
-	opt.cache[fn] = out
 	return out, nil
+}
+
+func clipS(s string) string {
+	if len(s) > 120 {
+		return s[:120] + "..."
+	}
+	return s
 }
 
 // renameLocals shifts the identifiers of local allocations / unresolved values of an inlined callee so that
